@@ -186,6 +186,17 @@ Definition dec_obs (s : sexp) : option obs :=
   | _ => None
   end.
 
+(** the observations of a submission (one per API variant); [(same)] repeats the previous one *)
+Fixpoint dec_obs_list (prev : option obs) (l : list sexp) : option (list obs) :=
+  match l with
+  | [] => Some []
+  | x :: r =>
+      match (match tagged "same" x with Some [] => prev | _ => dec_obs x end) with
+      | Some o => match dec_obs_list (Some o) r with Some os => Some (o :: os) | None => None end
+      | None => None
+      end
+  end.
+
 Record sub := {
   s_transport : string; s_role : string; s_label : string;
   s_env : env; s_dec : dobs; s_obs : list obs;
@@ -202,7 +213,7 @@ Definition dec_raw (s : sexp) : bytes :=
 Definition dec_sub (s : sexp) : option sub :=
   match tagged "sub" s with
   | Some [t; r; l; e; d; SL os] =>
-      match as_sym t, as_sym r, as_sym l, dec_env e, dec_dobs d, map_opt dec_obs os with
+      match as_sym t, as_sym r, as_sym l, dec_env e, dec_dobs d, dec_obs_list None os with
       | Some t', Some r', Some l', Some e', Some d', Some os' =>
           Some {| s_transport := t'; s_role := r'; s_label := l'; s_env := e'; s_dec := d'; s_obs := os'; s_raw := dec_raw e |}
       | _, _, _, _, _, _ => None
@@ -365,13 +376,6 @@ Definition frame_eqb (a b : option frame) : bool :=
   | _, _ => false
   end.
 
-Definition refit (T : ntable) (s : sub) : sub :=
-  match s_env s with
-  | EWs p di _ =>
-      {| s_transport := s_transport s; s_role := s_role s; s_label := s_label s;
-         s_env := EWs p di (frame_of_text (numval_of T) (s_raw s)); s_dec := s_dec s; s_obs := s_obs s; s_raw := s_raw s |}
-  | EHttp _ => s
-  end.
 
 (** the harness's payload text may carry white space around the value; json.RawMessage does not *)
 Definition trim_frame (f : option frame) : option frame :=
@@ -384,10 +388,20 @@ Definition trim_frame (f : option frame) : option frame :=
   | None => None
   end.
 
-Definition frame_split_ok (T : ntable) (s : sub) : bool :=
+(** a submission with the model's results, computed once: the frame as the model splits it (and
+    whether the harness's split agrees), what the model decodes, whether the envelope is well formed *)
+Record esub := { e_sub :> sub; e_split_ok : bool; e_model : mres; e_wf : bool }.
+
+Definition refit (T : ntable) (s : sub) : esub :=
   match s_env s with
-  | EWs _ _ hf => frame_eqb (frame_of_text (numval_of T) (s_raw s)) (trim_frame hf)
-  | EHttp _ => true
+  | EWs p di hf =>
+      let mf := frame_of_text (numval_of T) (s_raw s) in
+      let e' := EWs p di mf in
+      {| e_sub := {| s_transport := s_transport s; s_role := s_role s; s_label := s_label s;
+                     s_env := e'; s_dec := s_dec s; s_obs := s_obs s; s_raw := s_raw s |};
+         e_split_ok := frame_eqb mf (trim_frame hf);
+         e_model := run_model T e'; e_wf := well_formed T e' |}
+  | EHttp _ => {| e_sub := s; e_split_ok := true; e_model := run_model T (s_env s); e_wf := well_formed T (s_env s) |}
   end.
 
 (** ** per-submission checks *)
@@ -408,7 +422,7 @@ Definition jparse_eqb (a b : jparse) : bool :=
 
 Definition flavour_of (e : env) : flavour := match e with EHttp _ => StdJson | EWs _ _ _ => StdJson end.
 
-Definition oracle_sub (J : jtable) (T : ntable) (s : sub) : option sexp :=
+Definition oracle_sub (J : jtable) (T : ntable) (s : esub) : option sexp :=
   if negb (forallb (fun t => forallb (fun tok => match num_find T tok with Some _ => true | None => false end)
                                      (num_tokens (List.length t) t)) (s_raw s :: needed_texts (s_env s))) then
     Some (v_bad "number-table-incomplete")
@@ -417,13 +431,13 @@ Definition oracle_sub (J : jtable) (T : ntable) (s : sub) : option sexp :=
                                   | None => true
                                   end) (needed_texts (s_env s))) then
     Some (v_bad "json-table-disagrees")
-  else if negb (well_formed T (s_env s)) && negb (forallb oracle_malformed (s_obs s)) then
+  else if negb (e_wf s) && negb (forallb oracle_malformed (s_obs s)) then
     Some (v_oracle_fail ("malformed-not-refused:" ++ s_transport s ++ ":" ++ s_label s) [])
   else None.
 
 (** model against implementation on one submission *)
-Definition check_sub (T : ntable) (o : op) (s : sub) : option sexp :=
-  let m := run_model T (s_env s) in
+Definition check_sub (T : ntable) (o : op) (s : esub) : option sexp :=
+  let m := e_model s in
   if negb (dec_agrees m (s_dec s)) then
     Some (v_mismatch ("decoder:" ++ name_of s) [])
   else if negb (forallb (api_agrees m) (s_obs s)) then
@@ -459,13 +473,13 @@ Definition pq_key_eqb (a b : option (bool * bytes)) : bool :=
 
 Record entry := { en_name : string; en_sub : nat; en_op : op; en_pq : option (bool * bytes); en_obs : obs }.
 
-Fixpoint entries (T : ntable) (i : nat) (ss : list sub) : list entry :=
+Fixpoint entries (T : ntable) (i : nat) (ss : list esub) : list entry :=
   match ss with
   | [] => []
   | s :: r =>
       List.app
-        match accepted_op (run_model T (s_env s)) with
-        | Some o => map (fun ob => {| en_name := name_of s; en_sub := i; en_op := o; en_pq := pq_key (run_model T (s_env s)); en_obs := ob |}) (s_obs s)
+        match accepted_op (e_model s) with
+        | Some o => map (fun ob => {| en_name := name_of s; en_sub := i; en_op := o; en_pq := pq_key (e_model s); en_obs := ob |}) (s_obs s)
         | None => []
         end
         (entries T (S i) r)
@@ -524,28 +538,28 @@ Definition canonical_complete (o : op) (is_sub : bool) (ss : list sub) : bool :=
     Bool.eqb (has_canonical ss "post-graphql") (carries HttpPostGraphql o))).
 
 (** ** evidence classes *)
-Definition classes (T : ntable) (o : op) (is_sub : bool) (ss : list sub) : list string :=
-  let canon := filter (fun s => String.eqb (s_role s) "canonical") ss in
-  let executed := existsb (fun s => existsb (fun ob => negb (is_empty (ob_resolvers ob))) (s_obs s)) canon in
-  let refused := filter (fun s => negb (well_formed T (s_env s))) ss in
-  let alias_same := existsb (fun s => negb (String.eqb (s_role s) "canonical") &&
-                                      match accepted_op (run_model T (s_env s)) with Some o' => op_eqb o o' | None => false end) ss in
-  let alias_other := existsb (fun s => negb (String.eqb (s_role s) "canonical") &&
-                                       match accepted_op (run_model T (s_env s)) with Some o' => negb (op_eqb o o') | None => false end) ss in
+Definition classes (T : ntable) (o : op) (is_sub : bool) (ss : list esub) : list string :=
+  let canon := filter (fun s : esub => String.eqb (s_role s) "canonical") ss in
+  let executed := existsb (fun s : esub => existsb (fun ob => negb (is_empty (ob_resolvers ob))) (s_obs s)) canon in
+  let refused := filter (fun s : esub => negb (e_wf s)) ss in
+  let alias_same := existsb (fun s : esub => negb (String.eqb (s_role s) "canonical") &&
+                                      match accepted_op (e_model s) with Some o' => op_eqb o o' | None => false end) ss in
+  let alias_other := existsb (fun s : esub => negb (String.eqb (s_role s) "canonical") &&
+                                       match accepted_op (e_model s) with Some o' => negb (op_eqb o o') | None => false end) ss in
   (* the same bytes as POST body and as socket payload, read as different operations *)
   let text_diverges :=
-    existsb (fun s1 => existsb (fun s2 =>
+    existsb (fun s1 : esub => existsb (fun s2 : esub =>
        String.eqb (s_label s1) (s_label s2) && negb (String.eqb (s_role s1) "canonical") &&
        match s_env s1, s_env s2 with
        | EHttp _, EWs _ _ _ =>
-           match accepted_op (run_model T (s_env s1)), accepted_op (run_model T (s_env s2)) with
+           match accepted_op (e_model s1), accepted_op (e_model s2) with
            | Some o1, Some o2 => negb (op_eqb o1 o2)
            | _, _ => false
            end
        | _, _ => false
        end) ss) ss in
-  let http_refused := existsb (fun s => match s_env s with EHttp _ => true | _ => false end) refused in
-  let ws_refused := existsb (fun s => match s_env s with EWs _ _ _ => true | _ => false end) refused in
+  let http_refused := existsb (fun s : esub => match s_env s with EHttp _ => true | _ => false end) refused in
+  let ws_refused := existsb (fun s : esub => match s_env s with EWs _ _ _ => true | _ => false end) refused in
   List.concat [
     (if executed then ["executed"] else ["not-executed"]);
     (if is_sub then ["ws-only"] else if carries HttpPostGraphql o then ["six-carriers"] else ["five-carriers"]);
@@ -601,13 +615,14 @@ Definition check (c : sexp) : sexp :=
                            | _, _ => false
                            end) then v_bad "init-sequence-does-not-install-the-principal"
                   else if negb (canonical_complete o is_sub subs) then v_bad "missing-canonical-transport"
-                  else if negb (forallb (frame_split_ok T) subs) then v_bad "frame-split-disagrees"
                   else
                     let subs := map (refit T) subs in
+                    if negb (forallb e_split_ok subs) then v_bad "frame-split-disagrees"
+                    else
                     match first_some (oracle_sub J T) subs with
                     | Some v => v
                     | None =>
-                        match (match check_same (entries T 0 subs) with Some v => Some v | None => check_same_text subs end) with
+                        match (match check_same (entries T 0 subs) with Some v => Some v | None => check_same_text (map e_sub subs) end) with
                         | Some v => v
                         | None =>
                             match first_some (check_sub T o) subs with
